@@ -822,6 +822,28 @@ def getitem(a: AArr, idx):
     return AArr(axes, t, Buf("advanced index"), dtype=a.dtype)
 
 
+def _alias_chain(a: AArr):
+    """the arrays this view shows WHOLE, entry by entry (a view taken without any selection - the same memory under the same
+    labels, possibly with the axes in another order): a store through the view is a store into each of them"""
+    out, cur = [], a
+    while cur.view and cur.origin is not None and cur.origin[1] is None and cur.origin[0].buf is cur.buf \
+            and sorted(map(repr, (x for x in cur.axes if x != ONE))) == sorted(map(repr, (x for x in cur.origin[0].axes if x != ONE))):
+        cur = cur.origin[0]
+        out.append(cur)
+    return out if not cur.view else None        # None: the chain does not end in the owner of the memory
+
+
+def _store_through_alias(a: AArr):
+    """after a store through view `a`: when `a` shows its base whole, the base holds the same entries now (no stale holder)"""
+    chain = _alias_chain(a)
+    if not chain:
+        return False
+    for b in chain:
+        b.term = a.term
+        b.stamp = a.buf.writes
+    return True
+
+
 def setitem(a: AArr, idx, value):
     """a[idx] = value : NumPy assigns value broadcast to the shape of a[idx]"""
     a.check_fresh()
@@ -832,7 +854,7 @@ def setitem(a: AArr, idx, value):
         a.term = t_fn("where", idx.term, as_term(value), a.term)
         a.buf.writes += 1
         a.stamp = a.buf.writes
-        if a.view:
+        if a.view and not _store_through_alias(a):
             a.buf.view_writer = a
         return
     if a.view:
@@ -863,6 +885,8 @@ def setitem(a: AArr, idx, value):
         a.term = ("upd", a.term, tuple(sorted(sel)), vt)
     a.buf.writes += 1
     a.stamp = a.buf.writes
+    if a.view and a.buf.view_writer is a and _store_through_alias(a):
+        a.buf.view_writer = None
 
 
 def tile(a: AArr, reps):
